@@ -2,7 +2,10 @@ module verifh
 
 go 1.20
 
-require github.com/mgtv-tech/redis-GunYu v0.0.0
+require (
+	github.com/mgtv-tech/redis-GunYu v0.0.0
+	google.golang.org/grpc v1.58.3
+)
 
 require (
 	github.com/beorn7/perks v1.0.1 // indirect
@@ -29,7 +32,6 @@ require (
 	golang.org/x/text v0.13.0 // indirect
 	google.golang.org/genproto/googleapis/api v0.0.0-20230711160842-782d3b101e98 // indirect
 	google.golang.org/genproto/googleapis/rpc v0.0.0-20230711160842-782d3b101e98 // indirect
-	google.golang.org/grpc v1.58.3 // indirect
 	google.golang.org/protobuf v1.31.0 // indirect
 	gopkg.in/natefinch/lumberjack.v2 v2.2.1 // indirect
 	gopkg.in/yaml.v3 v3.0.1 // indirect
